@@ -37,12 +37,29 @@ type snapSet struct {
 
 func takeSnaps(c *girc.Client) *snapSet {
 	s := &snapSet{}
+	// every tracked name in several spellings a caller may plausibly pass (case variants, a STATUSMSG-style prefix in
+	// front, a hostmask): whatever a getter returns for them — if anything — must be a snapshot too
+	spellings := func(n string) []string {
+		out := []string{n, strings.ToUpper(n), strings.Title(n)}
+		for _, p := range []string{"@", "+", "~", "&", "%", "#", ":"} {
+			out = append(out, p+n)
+		}
+		return append(out, n+"!u@h")
+	}
 	for _, n := range c.UserList() {
-		s.users = append(s.users, c.LookupUser(n))
+		for _, sp := range spellings(n) {
+			if u := c.LookupUser(sp); u != nil {
+				s.users = append(s.users, u)
+			}
+		}
 	}
 	s.users = append(s.users, c.Users()...)
 	for _, n := range c.ChannelList() {
-		s.channels = append(s.channels, c.LookupChannel(n))
+		for _, sp := range spellings(n) {
+			if ch := c.LookupChannel(sp); ch != nil {
+				s.channels = append(s.channels, ch)
+			}
+		}
 	}
 	s.channels = append(s.channels, c.Channels()...)
 	return s
